@@ -33,6 +33,15 @@ var crashAddrs = []uint16{0x0000, 0x0001, 0x0002, 0x0007, 0x0008, 0x000F, 0x0010
 
 func genCrashCase(r *rng.R, spec string) crashCase {
 	c := crashCase{spec: spec, model: []string{"6502", "65C02"}[r.Intn(2)]}
+	// one case in eight does not run a program but hands bytes to the loader paths: a PreLoad image of the
+	// configuration, or CopyAndRun, placed so that it may not fit (end of a small memory, $FFFF wrap)
+	if r.Chance(12) {
+		at := []uint16{0x3FFE, 0x7FFD, 0xBFFF, 0xFFFE, 0x0000, 0x9EFE, 0x00F0}[r.Intn(7)]
+		n := 1 + r.Intn(8)
+		c.code = make([]uint8, n)
+		c.model = fmt.Sprintf("%s:%04x", []string{"preload", "copyrun"}[r.Intn(2)], at)
+		return c
+	}
 	p := []uint8{}
 	n := 1 + r.Intn(6)
 	for i := 0; i < n; i++ {
@@ -77,6 +86,38 @@ func genCrashCase(r *rng.R, spec string) crashCase {
 func runCrashCase(c crashCase) string {
 	cfg := emuconfig.DefaultConfig()
 	cfg.MemSpec = c.spec
+	if strings.HasPrefix(c.model, "preload:") || strings.HasPrefix(c.model, "copyrun:") {
+		var at uint16
+		fmt.Sscanf(c.model[8:], "%04x", &at)
+		res := "halt"
+		if protect(func() {
+			if strings.HasPrefix(c.model, "preload:") {
+				f, err := os.CreateTemp("", "verif-preload")
+				if err != nil {
+					panic(err)
+				}
+				f.Write(c.code)
+				f.Close()
+				defer os.Remove(f.Name())
+				cfg.PreLoad = map[uint16]string{at: f.Name()}
+				if _, err := cfg.NewCpu(); err != nil {
+					res = "error"
+				}
+			} else {
+				p, err := cfg.NewCpu()
+				if err != nil {
+					res = "builderr"
+					return
+				}
+				if err := p.CopyAndRun(c.code, at); err != nil {
+					res = "error"
+				}
+			}
+		}) {
+			res = "hostcrash"
+		}
+		return res
+	}
 	cfg.Model = c.model
 	p, err := cfg.NewCpu()
 	if err != nil {
